@@ -45,7 +45,7 @@ def run(res, proof):
     structs = list(gen.wellformed_structures(L, 3))
     if quick:
         structs = [s for s in structs if len(s) <= 5 or rng.random() < 0.15]
-    for _ in range(60 if quick else 1500):
+    for _ in range(60 if quick else 500):
         structs.append(gen.random_structure(rng, rng.randint(6, 30 if quick else 120), pair_bias=rng.choice((0.5, 0.8)), depth_bias=rng.choice((0.3, 0.7))))
     objectio.set_io_objects()
     lines, impl = [], []
